@@ -1893,13 +1893,12 @@ mmx_rule_select1ql (OrcCompiler *p, void *user, OrcInstruction *insn)
   const int src = p->vars[insn->src_args[0]].alloc;
   const int dest = p->vars[insn->dest_args[0]].alloc;
 
-  /* values of dest are shifted away so don't matter */
-
+  if (src != dest) {
+    orc_mmx_emit_movq (p, src, dest);
+  }
   orc_mmx_emit_psrlq_imm (p, 32, dest);
 #ifndef MMX
-  orc_mmx_emit_pshufd (p, ORC_MMX_SHUF(2,0,2,0), src, dest);
-#else
-  orc_mmx_emit_movq (p, src, dest);
+  orc_mmx_emit_pshufd (p, ORC_MMX_SHUF(2,0,2,0), dest, dest);
 #endif
 }
 
